@@ -851,6 +851,8 @@ def relative_to(base, target, rng):
     b, t = urlsplit(base), urlsplit(target)
     if (b.scheme, b.netloc) != (t.scheme, t.netloc) or rng.random() < 0.4 or b.scheme == "suds":
         return target
+    if rng.random() < 0.2:
+        return t.path               # relative to the server root ("/a/ns1.xsd")
     rel = posixpath.relpath(t.path, posixpath.dirname(b.path))
     return rel
 
